@@ -6,6 +6,7 @@ package c02
 
 import (
 	"fmt"
+	"math/big"
 	"net/netip"
 	"os"
 	"strings"
@@ -267,6 +268,20 @@ func TestShapes(t *testing.T) {
 	// addr:port matrix.
 	addrs := []string{"1.2.3.4", "0.0.0.0", "255.255.255.255", "::", "::1", "1::", "1:2:3:4:5:6:7:8", "::ffff:1.2.3.4", "fe80::1%eth0", "1:2:3:4:5:6:1.2.3.4", "1.2.3", "", ":", "[", "]", "[]", "::%", "1:2:3:4:5:6:7:8:9", "1:2:3:4:5:6:7::", "::2:3:4:5:6:7:8"}
 	ports := []string{"", "0", "00080", "000080", "0000000443", "065535", "0065536", "000000", "65535", "65536", "99999999999999999999", "+1", "-1", "1_0", "８０", " 80", "80 ", "0x50", "1e3", "8\x000"}
+	// ports around every power of two a parser's accumulator could wrap at: 2^k*m + d is congruent to a legal port
+	// modulo 2^k
+	for _, k := range []uint{8, 15, 16, 17, 24, 31, 32, 33, 48, 53, 63, 64, 65, 96, 127, 128} {
+		for m := int64(1); m <= 3; m++ {
+			for _, d := range []int64{-1, 0, 1, 80, 443, 65535, 65536} {
+				v := new(big.Int).Lsh(big.NewInt(m), k)
+				v.Add(v, big.NewInt(d))
+				ports = append(ports, v.String())
+				if d == 80 {
+					ports = append(ports, "00"+v.String())
+				}
+			}
+		}
+	}
 	forms := []func(a, p string) string{
 		func(a, p string) string { return a + ":" + p },
 		func(a, p string) string { return "[" + a + "]:" + p },
